@@ -406,6 +406,12 @@ def check_unit(rep, unit, registry_owner=False):
         for dflt in list(fn.args.defaults) + [k for k in fn.args.kw_defaults if k is not None]:
             rep.check(not is_mutable_init(dflt), 'OWN.mutable-default', file, qual, src(dflt)[:80], fn.lineno,
                       'mutable default argument is shared between calls', what='default %s' % src(dflt)[:40])
+            # a default is evaluated once, when the module is imported: a clock read there is the date of the import for the life of the process
+            clk = [c for c in ast.walk(dflt) if isinstance(c, ast.Call) and src(c.func).endswith(('.today', '.now', '.utcnow', 'time.time', 'time.localtime'))]
+            if clk:
+                rep.fail('OWN.default-clock', file, qual, '%s=%s' % ('default', src(dflt)[:60]), fn.lineno,
+                         'the default argument %s reads the clock when the module is imported: every later call sees the date of the import, so the result '
+                         'depends on how long the process has been running' % src(dflt)[:60])
         for n in ast.walk(fn):
             if isinstance(n, ast.Nonlocal):
                 rep.fail('OWN.global', file, qual, src(n), n.lineno, 'nonlocal state shared between calls')
